@@ -429,7 +429,7 @@ pub fn run(args: &Args, report: &Report) {
             opt.txs = n..=n;
             let plan = sess.gen_block_plan(rng, &opt);
             c.report.add("c03.count_stress_planned_txs", plan.txs.len() as u64);
-            let source = *pick(rng, &[SourceKind::IgnoreCount, SourceKind::IgnoreAll, SourceKind::Once]);
+            let source = [SourceKind::IgnoreCount, SourceKind::IgnoreAll, SourceKind::Once][(case.shard / 4) % 3];
             match catch(|| sess.produce(&plan, source)) {
                 Ok(Ok(p)) => {
                     c.report.add("c03.count_stress_included_txs", (p.block.transactions().len() - 1) as u64);
@@ -505,18 +505,18 @@ pub fn run(args: &Args, report: &Report) {
         }
     });
     if args.replay.is_none() {
-        report.require("c03.gas_limit_binding.ignoring", args.by_tier(40, 400));
-        report.require("c03.gas_limit_binding.respecting", args.by_tier(40, 400));
-        report.require("c03.size_limit_binding.ignoring", args.by_tier(30, 300));
-        report.require("c03.size_limit_binding.respecting", args.by_tier(30, 300));
-        report.require("c03.count_limit_binding.ignoring", 1);
-        report.require("c03.mint_nonzero", args.by_tier(100, 1_000));
-        report.require("c03.mint_zero", args.by_tier(100, 1_000));
-        report.require("c03.mutant_rejected.amount_plus.consistent_header", args.by_tier(200, 2_000));
-        report.require("c03.mutant_rejected.index_plus.consistent_header", args.by_tier(200, 2_000));
-        report.require("c03.mutant_rejected.price_plus.consistent_header", args.by_tier(30, 300));
-        report.require("c03.mutant_rejected.missing.consistent_header", args.by_tier(200, 2_000));
-        report.require("c03.fee_vs_balance_checked", args.by_tier(200, 2_000));
+        report.require("c03.gas_limit_binding.ignoring", args.by_tier(120, 1200));
+        report.require("c03.gas_limit_binding.respecting", args.by_tier(200, 2000));
+        report.require("c03.size_limit_binding.ignoring", args.by_tier(290, 2900));
+        report.require("c03.size_limit_binding.respecting", args.by_tier(500, 5000));
+        report.require("c03.count_limit_binding.ignoring", args.by_tier(3, 6));
+        report.require("c03.mint_nonzero", args.by_tier(630, 6300));
+        report.require("c03.mint_zero", args.by_tier(410, 4100));
+        report.require("c03.mutant_rejected.amount_plus.consistent_header", args.by_tier(1000, 10000));
+        report.require("c03.mutant_rejected.index_plus.consistent_header", args.by_tier(1000, 10000));
+        report.require("c03.mutant_rejected.price_plus.consistent_header", args.by_tier(370, 3700));
+        report.require("c03.mutant_rejected.missing.consistent_header", args.by_tier(1000, 10000));
+        report.require("c03.fee_vs_balance_checked", args.by_tier(2600, 26000));
     }
     report.finish(
         args,
